@@ -4,6 +4,7 @@ import (
 	"bytes"
 	"fmt"
 	"io"
+	"os"
 	"strings"
 	"testing"
 
@@ -123,7 +124,27 @@ func checkC12(c caseC12, rec *ev.Rec) *ev.Failure {
 	if c.Frag.Kind == "" {
 		c.Frag.Kind = "whole"
 	}
-	r, err := xz.ReaderConfig{DictCap: 4096, SingleStream: c.Single}.NewReader(fault.NewFragReader(file, c.Frag))
+	var src io.Reader = fault.NewFragReader(file, c.Frag)
+	if c.Frag.Kind == "osfile" {
+		// the source is an *os.File, the type most callers hand over (a
+		// reader must not treat it differently from any other source)
+		f, ferr := os.CreateTemp(os.Getenv("VERIF_WORKDIR"), "c12-*.xz")
+		if ferr != nil {
+			rec.Incomplete("cannot create a scratch file: " + ferr.Error())
+			return nil
+		}
+		defer os.Remove(f.Name())
+		defer f.Close()
+		if _, ferr = f.Write(file); ferr == nil {
+			_, ferr = f.Seek(0, io.SeekStart)
+		}
+		if ferr != nil {
+			rec.Incomplete("cannot fill the scratch file: " + ferr.Error())
+			return nil
+		}
+		src = f
+	}
+	r, err := xz.ReaderConfig{DictCap: 4096, SingleStream: c.Single}.NewReader(src)
 	var got []byte
 	if err == nil {
 		got, err = io.ReadAll(r)
@@ -205,6 +226,27 @@ func origins(s []gen.Src) []string {
 func TestC12(t *testing.T) {
 	rec := ev.New("C12", "exploration")
 	rec.Rule = "enumerated first: two streams separated by 1 MiB, 6 MiB and 6 MiB + 2 bytes of padding; then rapid draws 1-5 valid xz streams (library, reference generator incl. empty and zero-block streams, liblzma, corpus), zero padding 0..16 after each (mostly multiples of 4, 1/8 arbitrary), optional leading padding, optional trailing non-zero garbage, SingleStream on/off; a model predicts (content, error?): all paddings multiples of 4, no lead, no garbage -> concatenation and nil; otherwise an error with a prefix of the concatenation; SingleStream -> exactly the first content, error iff a byte follows; non-trivial = >= 2 members with content and some padding; distinct = hash(file bytes, SingleStream)"
+	// chains read straight from an *os.File
+	enumerate(t, rec, checkC12, func(try func(caseC12) bool) {
+		for i := 0; i < 24; i++ {
+			if i%rec.Shards != rec.Shard {
+				continue
+			}
+			var srcs []gen.Src
+			var pads []int
+			for k := 0; k < 2+i%3; k++ {
+				srcs = append(srcs, gen.Src{Fmt: "xz", Origin: "ref", Seed: uint64(900 + 10*i + k), NOps: 4 + 40*(i%4), NChunks: 1 + k%2, NBlocks: (i + k) % 3, Check: []byte{1, 4, 10, 0}[(i+k)%4]})
+				pads = append(pads, 4*((i+k)%3))
+			}
+			rec.Class("source_is_os_file")
+			if !try(caseC12{Srcs: srcs, Pads: pads, Single: i%6 == 5, Frag: fault.Frag{Kind: "osfile"}}) {
+				return
+			}
+		}
+	})
+	if t.Failed() {
+		return
+	}
 	// very long stream padding (legal: any multiple of four zero bytes): work
 	// per padding word must not pile up (on the stack or elsewhere)
 	enumerate(t, rec, checkC12, func(try func(caseC12) bool) {
